@@ -342,15 +342,41 @@ def job_trees3(chunk):
     return t.result()
 
 
+ROUND_OPS = [("bin", "add"), ("bin", "sub"), ("bin", "mul"), ("bin", "truediv")]
+ROUND_LITS = [1, -1, 3, 2 ** 53, -2 ** 53, 0.1, 1e16]
+ROUND_VALUES = [0.1, 0.2, 0.3, 1.0, 1e16, -1e16, 1e-17, 7]
+
+
+def job_rounding(chunk):
+    """nested trees whose value depends on the ORDER of the floating-point operations: any algebraic rewriting of the tree
+    (folding literals, re-associating a chain) changes the rounding.  All op2(op1(x, c1), c2) in every operand arrangement."""
+    _np()
+    env = Env()
+    t = Tally("rounding")
+    X, Y = ("loc", A), ("loc", B)
+    for op2 in chunk:
+        for op1 in ROUND_OPS:
+            for c1 in ROUND_LITS:
+                for c2 in ROUND_LITS:
+                    l1, l2 = ("lit", c1), ("lit", c2)
+                    terms = [E.mk_bin(op2, E.mk_bin(op1, X, l1), l2), E.mk_bin(op2, l2, E.mk_bin(op1, X, l1)),
+                             E.mk_bin(op2, E.mk_bin(op1, l1, X), l2), E.mk_bin(op2, l2, E.mk_bin(op1, l1, X)),
+                             E.mk_bin(op2, E.mk_bin(op1, X, Y), l2), E.mk_bin(op2, X, E.mk_bin(op1, Y, l2))]
+                    for term in terms:
+                        for x in ROUND_VALUES:
+                            t.check(env, term, op2[1], {"a": x, "b": 0.2})
+    return t.result()
+
+
 SECTIONS = {
     "binary": job_binary, "unary_builtin": job_unary_builtin, "calls_access": job_calls_access,
-    "inplace": job_inplace, "trees2": job_trees2, "trees3": job_trees3,
+    "inplace": job_inplace, "trees2": job_trees2, "trees3": job_trees3, "rounding": job_rounding,
 }
 
 
 def plan(tier, seed):
     jobs = []
-    secs = ["binary", "unary_builtin", "calls_access", "inplace", "trees2"] + (["trees3"] if tier == "thorough" else [])
+    secs = ["binary", "unary_builtin", "calls_access", "inplace", "trees2", "rounding"] + (["trees3"] if tier == "thorough" else [])
     for s in secs:
         jobs.append({"name": s, "mode": "compiled", "hashseed": seed % 2 ** 32 if s == "binary" else 0,
                      "nproc": 6 if s in ("trees2", "trees3") else 3, "timeout": 3000,
@@ -371,6 +397,8 @@ def run_job(job):
         chunks = [[0]]
     elif sec == "inplace":
         chunks = [[k] for k in T.INPLACE]
+    elif sec == "rounding":
+        chunks = [[op] for op in ROUND_OPS]
     elif sec == "trees2":
         ops = E.BINOPS if tier == "thorough" else E.BINOPS
         chunks = [[op] for op in ops]
